@@ -108,7 +108,7 @@ impl<const L: usize> EnvDyn for Env<L> {
             "env_order_by_id": [(0..self.get_orders().len()).map(|i| crate::proj::order_tuple(self.order(i))).collect::<Vec<_>>()],
             "env_statuses": [(0..self.get_orders().len()).map(|i| json!(crate::proj::status_s(self.order_status(i)))).collect::<Vec<_>>()],
             "env_trades": [crate::proj::trades_value(self.get_trades())],
-            "now": b.get_time(),
+            "now": crate::proj::time_s(b.get_time()),
             "pending": pend,
             "l2": [l2_value(self.level_2_data())],
             "rec": [rec_value(h, self.get_prices(), self.get_volumes(), self.get_touch_volumes(), self.get_touch_order_counts(), self.get_trade_vols())],
@@ -169,7 +169,7 @@ impl<const A: usize, const L: usize> EnvDyn for MarketEnv<A, L> {
             "env_order_by_id": (0..A).map(|a| (0..self.get_orders(a).len()).map(|i| crate::proj::order_tuple(self.order((a, i)))).collect::<Vec<_>>()).collect::<Vec<_>>(),
             "env_statuses": (0..A).map(|a| (0..self.get_orders(a).len()).map(|i| json!(crate::proj::status_s(self.order_status((a, i))))).collect::<Vec<_>>()).collect::<Vec<_>>(),
             "env_trades": (0..A).map(|a| crate::proj::trades_value(self.get_trades(a))).collect::<Vec<_>>(),
-            "now": m.get_time(),
+            "now": crate::proj::time_s(m.get_time()),
             "pending": pend,
             "l2": l2.iter().map(|d| l2_value(d)).collect::<Vec<_>>(),
             "rec": (0..A).map(|a| rec_value(self.get_level_2_data_history(a), self.get_prices(a), self.get_volumes(a),
